@@ -20,7 +20,10 @@ META = {
     "level": "Part (b), full on the model: for EVERY interleaving of start/cancel/observe/fire/ctx-cancel with every statement of "
              "the timer goroutine as extracted from roundtimer.go - no panic when each start follows a returned cancel or an "
              "observed elapse, the request is always answered, a timer fires at most once, and no elapse after cancel returned. "
-             "Part (a) (state-machine timer discipline) is not yet part of this check.",
+             "Part (a), partial: on the round state machine model (Model/StateMachine.v, tied to the real tmstate.StateMachine "
+             "by per-event correspondence) every timer started by any event of any history is of the kind of the step entered "
+             "(C12sm_timer_kinds_partial); 'exactly one timer, armed iff in a timed step' is decided by Coq monitors on the "
+             "real state machine's recorded timer calls, not by an inductive proof.",
     "note": "Partial: Go's select choice, channel close visibility, sync.Mutex and time.Timer semantics are trusted (modelled); "
             "the cancel function is one atomic step (close bracketed by Lock/Unlock); the caller is single threaded; the stress "
             "run samples real schedules, the theorems cover all model schedules. Repo fix f318c13 (cancel checked first in the "
@@ -485,7 +488,14 @@ def sub_verdict_b(c, X):
     c.coverage["model_counterexample_schedules"] = cex
 
 
-SUBCHECKS = [sub_extract_and_prove, sub_build_harness, sub_scripts, sub_stress, sub_verdict_b]
+def sub_state_machine(c, X):
+    """part (a): the state machine's timer discipline (one timer, of the kind of the step it waits in), on the
+    round state machine model tied to the real tmstate.StateMachine (checks/c12_sm.py, Properties/C12sm.v)"""
+    import c12_sm
+    c12_sm.subchecks(c)
+
+
+SUBCHECKS = [sub_extract_and_prove, sub_build_harness, sub_scripts, sub_stress, sub_verdict_b, sub_state_machine]
 
 
 def main(argv):
